@@ -53,7 +53,8 @@ def main():
             tasks.append({"sc": i, "st0": st0, "horizon": hz, "tmin": 3 if len(tasks) % 6 == 0 else 0,
                           "infl_kind": ("set", "list", "iterator", "generator")[len(tasks) % 4],
                           "labels": ("str", "ints", "str", "falsy", "str")[len(tasks) % 5],
-                          "ret_subset": (0, 0, 1, 2, 3)[len(tasks) % 5 if len(tasks) % 3 == 0 else 0]})
+                          "ret_subset": (0, 0, 1, 2, 3)[len(tasks) % 5 if len(tasks) % 3 == 0 else 0],
+                          "oversized_ic": len(tasks) % 4 == 1})
     done = common.pool_run(complexc.run_scenario, tasks, lambda r: bool(r["problems"]), is_settled=lambda r: bool(r.get("settled")))
     common.report_settled(chk, [r for _, r in done])
     for t, r in done:
